@@ -276,6 +276,13 @@ func implC02(line string) string {
 			vm.Set("newName", goArgs[k%len(goArgs)])
 			return "returns"
 		})
+	case "goapi2":
+		var k int
+		if len(f) != 2 {
+			return "bad-op"
+		}
+		fmt.Sscan(f[1], &k)
+		return implGoAPI2(k)
 	case "recur":
 		if len(f) != 4 {
 			return "bad-op"
@@ -419,6 +426,7 @@ func genC02(c *h.Ctx) {
 		}
 	}
 	genRecur(c)
+	genGoAPI2(c)
 	// stateful API sequences
 	for i := 0; i < c.N(4000, 150000); i++ {
 		c.Add("seq "+hex.EncodeToString([]byte(genSeq(r.Fork(), fns, 4+r.Intn(10)))), "sequence")
